@@ -23,6 +23,7 @@ import (
 	"sort"
 	"strings"
 
+	"golang.org/x/tools/go/cfg"
 	"golang.org/x/tools/go/packages"
 )
 
@@ -706,6 +707,57 @@ func (c *c27) checkFunc(fi *FuncInfo, spell map[*types.Named]map[int64]string, f
 		s.all = true
 		return s, "", "tag " + exprStr(tag) + " is not a field of the receiver: every constant"
 	}
+	// reaches: can the site be reached when the tag has the value v? Decided on the function's graph by
+	// cutting every edge whose condition, a comparison of the tag with constants, is false for v (E2).
+	// `if lo <= x && x <= hi { return table[x] }` followed by a switch for the other values is one mapping.
+	g := r.P.CFGOf(fi)
+	reaches := func(site ast.Node, tag ast.Expr, v int64) bool {
+		tag = ast.Unparen(tag)
+		tagStr := exprStr(tag)
+		switch t := tag.(type) {
+		case *ast.Ident:
+			if o, ok := info.Uses[t].(*types.Var); !ok || len(cgxAssignsTo(info, fi.Decl.Body, o)) > 0 {
+				return true
+			}
+		case *ast.SelectorExpr:
+			if id, ok := ast.Unparen(t.X).(*ast.Ident); !ok || recv == nil || info.Uses[id] != recv {
+				return true
+			}
+		default:
+			return true
+		}
+		isVar := func(e ast.Expr) bool { return exprStr(ast.Unparen(e)) == tagStr }
+		blk, _ := g.Locate(site)
+		if blk == nil {
+			return true
+		}
+		return g.reachable(g.G.Blocks[0], blk, func(b *cfg.Block, i int) bool {
+			for _, l := range g.edgeLits(b, i) {
+				if l.Tag != nil {
+					if !isVar(l.Tag) {
+						continue
+					}
+					if cv, ok := intValue(info, l.Expr); ok && (cv == v) != l.Truth {
+						return true
+					}
+					continue
+				}
+				if res, ok := evalPred(info, l.Expr, isVar, v); ok && res != l.Truth {
+					return true
+				}
+			}
+			return false
+		}, nil) || blk == g.G.Blocks[0]
+	}
+	mergeSpell := func(dst map[int64]string, src map[int64]string) map[int64]string {
+		if dst == nil {
+			return src
+		}
+		for k, v := range src {
+			dst[k] = v
+		}
+		return dst
+	}
 	ast.Inspect(fi.Decl.Body, func(n ast.Node) bool {
 		switch n := n.(type) {
 		case *ast.SwitchStmt:
@@ -749,9 +801,9 @@ func (c *c27) checkFunc(fi *FuncInfo, spell map[*types.Named]map[int64]string, f
 			if !spelling {
 				// a ranking (precedence), not a spelling: totality only
 			} else if field != "" {
-				fieldSpell[field] = mapping
+				fieldSpell[field] = mergeSpell(fieldSpell[field], mapping)
 			} else if recv != nil && types.Identical(recv.Type(), et) {
-				spell[et] = mapping
+				spell[et] = mergeSpell(spell[et], mapping)
 			}
 			defaultOK := cov.Default != nil && !c28panics(info, cov.Default.Body)
 			after := "the switch writes nothing for it"
@@ -764,6 +816,8 @@ func (c *c27) checkFunc(fi *FuncInfo, spell map[*types.Named]map[int64]string, f
 				switch {
 				case !req.all && !req.vals[v]:
 					o.Trivial("%s is never stored there by the parser (%s)", cst.Name(), why)
+				case !reaches(n.Tag, n.Tag, v):
+					o.Trivial("%s does not reach this switch: the comparisons of %s on the way exclude it", cst.Name(), exprStr(n.Tag))
 				case cov.Vals[v] != nil:
 					o.OK("%s -> %q (%s)", cst.Name(), mapping[v], why)
 				case defaultOK:
@@ -819,9 +873,9 @@ func (c *c27) checkFunc(fi *FuncInfo, spell map[*types.Named]map[int64]string, f
 				}
 			}
 			if field != "" {
-				fieldSpell[field] = mapping
+				fieldSpell[field] = mergeSpell(fieldSpell[field], mapping)
 			} else if recv != nil && types.Identical(recv.Type(), et) {
-				spell[et] = mapping
+				spell[et] = mergeSpell(spell[et], mapping)
 			}
 			for _, cst := range c.enums[et] {
 				v, _ := constantInt64(cst)
@@ -830,6 +884,8 @@ func (c *c27) checkFunc(fi *FuncInfo, spell map[*types.Named]map[int64]string, f
 				switch {
 				case !req.all && !req.vals[v]:
 					o.Trivial("%s is never stored there by the parser (%s)", cst.Name(), why)
+				case !reaches(n, n.Index, v):
+					o.Trivial("%s does not reach this table: the comparisons of %s on the way exclude it", cst.Name(), exprStr(n.Index))
 				case has:
 					o.OK("%s -> entry %d %q of the table (%s)", cst.Name(), v, mapping[v], why)
 				default:
